@@ -8,6 +8,7 @@ from ..engine.context import Context
 from ..engine.excflow import CANCELLED
 from ..engine.loader import dotted, walk_own
 from ..engine.report import norm_stmt
+from ..engine.terms import strip_sites
 
 PROPERTY = "C11"
 EXPLANATION = (
@@ -29,8 +30,9 @@ SHC = f"{M}.SecureHomeKitConnection"
 PROTO = f"{M}.InsecureHomeKitProtocol"
 
 
-def is_release(call: ast.Call) -> bool:
-    d = dotted(call.func)
+def is_release(call: ast.Call, path: str | None = None) -> bool:
+    """`path`: the callee with local aliases resolved (Context.call_path), so `t = self.transport; t.close()` counts."""
+    d = path or dotted(call.func)
     if d is None:
         return False
     return d.endswith("._drop_transport") or d.endswith(".transport.close") or d == "transport.close"
@@ -40,7 +42,7 @@ def release_nodes(ctx: Context, cfg) -> set[int]:
     out = set()
     for n in cfg.nodes:
         for c in ctx.calls(n):
-            if is_release(c):
+            if is_release(c, ctx.call_path(cfg, n, c)):
                 out.add(n.id)
     return out
 
@@ -51,6 +53,7 @@ def run(ctx: Context) -> None:
         _g1(ctx)
     if ck.rule("C11.G2", "a stale connection_lost cannot drop the current connection"):
         _g2(ctx)
+        _g2_family(ctx)
     if ck.rule("C11.X1", "close() lets no Exception escape"):
         _x1(ctx)
     if ck.rule("C11.G3", "drop/close discipline and single connect site"):
@@ -135,11 +138,13 @@ def _g1(ctx: Context) -> None:
     for g in ctx.prog.package_functions():
         if g.module.name != M or isinstance(g.node, ast.Lambda):
             continue
-        for n in walk_own(g.node):
-            if isinstance(n, ast.Call) and isinstance(n.func, ast.Attribute) and n.func.attr == "cancel":
-                d = dotted(n.func.value)
-                if d and d.endswith("_connector"):
-                    cancellers.append(g.qualname)
+        gcfg = ctx.cfg(g.qualname)
+        for gn in gcfg.nodes:
+            for n in ctx.calls(gn):
+                if isinstance(n.func, ast.Attribute) and n.func.attr == "cancel":
+                    d = ctx.expr_path(gcfg, gn, n.func.value) or dotted(n.func.value)
+                    if d and d.endswith("_connector"):
+                        cancellers.append(g.qualname)
     ck.check(
         "C11.G1",
         set(cancellers) == {f"{HC}._stop_connector"},
@@ -227,7 +232,7 @@ def _g2(ctx: Context) -> None:
     gate_p = _identity_gate_edges(ctx, pcfg, reporter_p)
     # reporter as seen inside _connection_lost: any parameter bound to self / self.transport at the call
     drops = [n for n, c in ctx.nodes_calling_name(lcfg, "_drop_transport")]
-    drops += [n for n in lcfg.nodes if any(is_release(c) for c in ctx.calls(n)) and n not in drops]
+    drops += [n for n in lcfg.nodes if any(is_release(c, ctx.call_path(lcfg, n, c)) for c in ctx.calls(n)) and n not in drops]
     for n, c in calls:
         reporter_l = []
         params = lf.pos_params[1:]
@@ -264,6 +269,39 @@ def _g2(ctx: Context) -> None:
                 wit,
                 "every path connection_lost -> _drop_transport() passes an identity test",
             )
+
+
+def _g2_family(ctx: Context) -> None:
+    """Every loss callback of the protocol family (overrides included): whatever it writes into the shared connection
+    object is written only under the identity test - a protocol that is no longer the current one must not disturb the
+    connection in use (e.g. `self.connection.is_secure = False` in an override makes the healthy successor look
+    disconnected; the next request then opens another socket over it)."""
+    ck = ctx.ck
+    T = ctx.terms
+    fam = [PROTO] + [c for c in ctx.prog.subclasses(PROTO)]
+    n_cb = 0
+    for cq in fam:
+        for name in ("connection_lost", "eof_received"):
+            g = ctx.prog.functions.get(f"{cq}.{name}")
+            if g is None:
+                continue
+            n_cb += 1
+            gcfg = ctx.cfg(g.qualname)
+            me = ("param", g.pos_params[0])
+            gate = _identity_gate_edges(ctx, gcfg, [me, ("attr", me, "transport")])
+            for n in gcfg.nodes:
+                a = n.ast
+                if n.kind != "stmt" or not isinstance(a, (ast.Assign, ast.AugAssign, ast.AnnAssign, ast.Delete)):
+                    continue
+                tgs = a.targets if isinstance(a, (ast.Assign, ast.Delete)) else [a.target]
+                for tg in tgs:
+                    if not isinstance(tg, ast.Attribute):
+                        continue
+                    base = strip_sites(T.of(gcfg, n, tg.value))
+                    if base == ("attr", me, "connection"):
+                        ctx.must_pass("C11.G2", gcfg, n, "identity test `connection.protocol is self` [true outcome]", gate,
+                                      desc=f"{cq.rsplit('.', 1)[-1]}.{name}: `{n.text()[:60]}` writes the shared connection object only when this protocol is its current one")
+    ck.require_min("C11.G2", "loss callbacks in the protocol family", n_cb, 1)
 
 
 def _x1(ctx: Context) -> None:
@@ -357,7 +395,7 @@ def _g3(ctx: Context) -> None:
                 for tt in (t.elts if isinstance(t, ast.Tuple) else [t]):
                     if dotted(tt) == "self.transport":
                         clears.append(n)
-    closes = [n for n in cfg.nodes if any(dotted(c.func) == "self.transport.close" for c in ctx.calls(n))]
+    closes = [n for n in cfg.nodes if any(ctx.call_path(cfg, n, c) == "self.transport.close" for c in ctx.calls(n))]
     gate = []
     for c in closes:
         gate += ctx.normal_out(cfg, c)
